@@ -158,6 +158,7 @@ type KFEntry struct {
 	caseRe  *regexp.Regexp
 	msgRe   *regexp.Regexp
 	caseSet map[string]bool
+	classRe *regexp.Regexp
 }
 
 type KnownFindings struct {
@@ -200,6 +201,12 @@ func LoadKnownFindings(path string) (*KnownFindings, error) {
 				}
 			}
 		}
+		if strings.ContainsAny(e.Match.Class, "|(*") {
+			e.classRe, err = regexp.Compile("^(?:" + e.Match.Class + ")$")
+			if err != nil {
+				return nil, fmt.Errorf("known finding %s: %w", e.ID, err)
+			}
+		}
 		e.msgRe, err = regexp.Compile(e.Match.Message)
 		if err != nil {
 			return nil, fmt.Errorf("known finding %s: %w", e.ID, err)
@@ -215,7 +222,7 @@ func (kf *KnownFindings) Match(v Violation) string {
 		if e.Status != "known" || e.Match == nil || e.Property != v.Property {
 			continue
 		}
-		if e.Match.Class != v.Class {
+		if e.Match.Class != v.Class && (e.classRe == nil || !e.classRe.MatchString(v.Class)) {
 			continue
 		}
 		okCase := false
